@@ -69,7 +69,10 @@ class AstGen:
         if c < 0.70: return ('var1', r.choice(VAR1_OPS), self.val(0, 12))
         if c < 0.74:
             v = F.int_to_bytes(r.choice([1, -1, 5, -10, 127, 128, 255, 256, 2**63 - 1, 2**63, -2**63, r.randint(-10**6, 10**6)])) \
-                if r.random() < 0.7 else r.choice([b'', b'\x00\x05', b'\x00', b'\xff\xff', b'\x00\x80'])
+                if r.random() < 0.7 else r.choice([b'', b'\x00\x05', b'\x00', b'\xff\xff', b'\x00\x80',
+                                                   # non-minimal (sign-extended) encodings of the ends of each width, and the minimal ones
+                                                   b'\xff\x80', b'\xff\x80\x00', b'\xff\xff\x80', b'\xff\x80\x00\x00', b'\x00\x7f', b'\x00\x7f\xff',
+                                                   b'\x80', b'\x80\x00', b'\x80\x00\x00', b'\x7f', b'\x7f\xff', b'\x00\x00\x80', b'\xff\x7f'])
             return ('var1int', r.choice(VAR1INT_OPS), v)
         if c < 0.77: return ('wc', self.val(0, 6), r.choice([0, 1, 2, 255]))
         if c < 0.79: return ('fix4', r.choice(FIX4_OPS), struct.pack('!f', r.choice([1.0, -2.5, 0.0, 1e10])) if r.random() < 0.6 else bytes(r.getrandbits(8) for _ in range(4)))
@@ -442,6 +445,10 @@ MALFORMED = [
     'OP_FOO', 'push d', 'OP_PUSH1 d1', 'OP_MERKLEVAL x00', 'OP_SWAP d1', 'OP_SWAP d256 d1', 'OP_CHECK_MULTISIG x00 d1',
     'push x' + 'ab' * 65536, 'OP_DIV_FLOAT x0000', 'def 300 { }', 'NOP255 d200', 'OP_WRITE_CACHE x00', '# unterminated comment',
     'push s"unterminated', '!undefined [ x00 ]', '@= 1 [ x00', 'OP_PUSH0 x0102', 'try { true } except { true } except { false }',
+    # macro calls with more / fewer values than the macro has parameters: nothing written may be dropped
+    '!= m [ a ] { push a } !m [ d1 x0203 ] false', '!= m [ ] { true } !m [ d1 ]', '!= m [ a b ] { push a push b } !m [ d1 ]',
+    '!= m [ a b ] { push a push b } !m [ d1 d2 d3 ] true', '!= m [ a b c ] { push a if { push b } else { push c } } !m [ d1 x0203 s"four" d-5 ]',
+    '!= m [ a ] { push a } !m [ ] true',
 ]
 
 
